@@ -127,6 +127,7 @@ struct Conn {
     qint64 rxBytes = 0, txBytes = 0;
     QString lastId;
     QString lastPrevid;
+    QString lastCaps;  // node#ver of the last <c/> seen in a presence of this connection
     QString smSessionId;  // id of the stream-management session this connection carries
     // server-side XEP-0198 counters (the reference for C09)
     bool smOn = false;
@@ -225,6 +226,10 @@ struct Conn {
         if (!el.firstChildElement().isNull()) {
             o["child"] = el.firstChildElement().tagName();
             o["childns"] = el.firstChildElement().namespaceURI();
+        }
+        if (tag == u"presence") {
+            for (auto c = el.firstChildElement(); !c.isNull(); c = c.nextSiblingElement())
+                if (c.tagName() == u"c" && c.namespaceURI() == u"http://jabber.org/protocol/caps") lastCaps = c.attribute(u"node"_s) + u'#' + c.attribute(u"ver"_s);
         }
         const bool stanza = (tag == u"message" || tag == u"presence" || tag == u"iq");
         if (smOn && stanza) {
@@ -433,6 +438,7 @@ struct Case {
             s.replace(u"$ID"_s, cn->lastId);
             s.replace(u"$CONN"_s, QString::number(cn->connIndex));
             s.replace(u"$PREVID"_s, cn->lastPrevid);
+            s.replace(u"$CAPS"_s, cn->lastCaps.toHtmlEscaped().replace(u'\'', u"&apos;"_s));
             s.replace(u"$PORT"_s, QString::number(clis[size_t(cn->clientIndex)]->listener->serverPort()));
             if (s.contains(u"$HREL:")) {
                 auto &c = *clis[size_t(cn->clientIndex)];
@@ -557,6 +563,32 @@ struct Case {
             if (st.contains("clientType")) dm->setClientType(st["clientType"].toString());
             if (st.contains("clientCategory")) dm->setClientCategory(st["clientCategory"].toString());
             if (st.contains("capsNode")) dm->setClientCapabilitiesNode(st["capsNode"].toString());
+            if (st.contains("infoForm")) {
+                QXmppDataForm form;
+                form.setType(QXmppDataForm::Result);
+                QList<QXmppDataForm::Field> fields;
+                for (auto fv : st["infoForm"].toArray()) {
+                    const auto fo = fv.toObject();
+                    const auto vals = fo["values"].toArray();
+                    QXmppDataForm::Field f;
+                    f.setKey(fo["var"].toString());
+                    if (fo["var"].toString() == u"FORM_TYPE") {
+                        f.setType(QXmppDataForm::Field::HiddenField);
+                        f.setValue(vals.at(0).toString());
+                    } else if (vals.size() > 1) {
+                        f.setType(QXmppDataForm::Field::ListMultiField);
+                        QStringList l;
+                        for (auto v : vals) l << v.toString();
+                        f.setValue(l);
+                    } else {
+                        f.setType(QXmppDataForm::Field::TextSingleField);
+                        f.setValue(vals.at(0).toString());
+                    }
+                    fields << f;
+                }
+                form.setFields(fields);
+                dm->setClientInfoForm(form);
+            }
         }
     }
 
